@@ -54,7 +54,8 @@ extern "C" void harness_main() {
     TrackingFlags flags; const int fl = pick(3, "flags"); flags.allowEdit = fl == 1; flags.term = fl >= 1; flags.definition = fl == 2; flags.convention = fl == 1;
     a.Mods().Track(d1, flags);
   }
-  switch (pick(7, "edit")) {
+  switch (pick(8, "edit")) {
+  case 7: a.SetTermFor(x1, "base" + hard("x1-term-char")); break;   // the term of X1 changes last: D1's term mentions X1, D2's text definition mentions D1
   case 4: (void)a.MoveBefore(s1, a.List().Find(c1)); break;     // reordering attempts across and inside the kind groups
   case 5: (void)a.MoveBefore(c1, a.List().end()); break;
   case 6: (void)a.MoveBefore(a1, a.List().Find(d1)); break;
